@@ -437,6 +437,10 @@ class Manager:
                     event.effects = 1
                     handling.effects += 1
         self.root._queue.drainFrom(component._queue)
+        # (suspended generator handlers of events the component has
+        # dispatched on its own: only a root's tick() steps them)
+        self.root._tasks.update(component._tasks)
+        component._tasks.clear()
         self.root._cache_needs_refresh = True
 
     def unregisterChild(self, component):
